@@ -91,6 +91,33 @@ class Gen:
             tid = 0
             if self.locked[tid]:
                 self.locked_op(tid, universe)
+            elif prof == "limits" and r.random() < 0.12:
+                y = r.random()
+                if y < 0.35:
+                    self.emit("m setmhp %d %d" % (tid, r.choice([NOMAX, 1, 2, 3, 4, 5, 6, 7])))
+                elif y < 0.55:
+                    self.emit("m rehash %d %d" % (tid, r.randrange(0, 8)))
+                elif y < 0.7:
+                    self.emit("m reserve %d %d" % (tid, r.choice([0, 1, 4, 9, 17, 40, 100, 260])))
+                elif y < 0.85:
+                    self.emit("m setmlf %d %d" % (tid, dbits(r.choice([0.05, 0.3, 0.6, 1.0, 0.0 if allow_mlf0 else 0.05, -1.0, 2.0]))))
+                else:
+                    self.emit("m stats %d" % tid)
+            elif prof == "functors" and r.random() < 0.3:
+                fns = FN_POOL + (["T,4,0"] if throwing_fn else [])
+                y = r.random()
+                if y < 0.5:
+                    self.emit("m %s %d %d %d %d %s %s" % (r.choice(["upsert", "uprase"]), tid, self.key(universe), r.randrange(1000),
+                                                          r.randrange(2), r.choice(fns), r.choice(fns)))
+                elif y < 0.8:
+                    self.emit("m %s %d %d %s" % (r.choice(["updatefn", "erasefn"]), tid, self.key(universe), r.choice(fns)))
+                else:
+                    self.emit("m find %d %d" % (tid, self.key(universe)))
+            elif prof == "locked" and r.random() < 0.1:
+                self.emit("m lock %d" % tid)
+                self.locked[tid] = True
+                self.emit("m iter %d" % tid)
+                self.emit("m riter %d" % tid)
             elif x < 0.30:
                 self.emit("m insert %d %d %d" % (tid, self.key(universe), r.randrange(1000)))
             elif x < 0.42:
